@@ -874,7 +874,8 @@ export class RegexRuntype extends BaseRuntype {
 
   constructor(metadata: RuntypeMetadata | undefined, regex: RegExp, description: string) {
     super(metadata);
-    this.regex = regex;
+    // the compiler emits the expression without anchors; a template literal type describes the whole string
+    this.regex = new RegExp(`^(?:${regex.source})$`, regex.flags);
     this.description = description;
   }
 
